@@ -6,24 +6,12 @@ import (
 	"golang.org/x/tools/go/ssa"
 )
 
+// forwardsOnEveryPath: every path through f passes a call of method mn on the wrapped writer - in f itself or in a
+// helper that does it on all of its paths (exitReachableAvoidingFromBlock lifts the landmark through static calls).
 func forwardsOnEveryPath(f *ssa.Function, mn string, isInner func(ssa.Value) bool) bool {
-	var fwd []ssa.Instruction
-	eachInstr(f, func(i ssa.Instruction) {
-		cc := callCommon(i)
-		if cc != nil && cc.IsInvoke() && cc.Method.Name() == mn && isInner(cc.Value) {
-			fwd = append(fwd, i)
-		}
-	})
-	if len(fwd) == 0 {
-		return false
-	}
 	_, open := exitReachableAvoidingFromBlock(f.Blocks[0], func(i ssa.Instruction) bool {
-		for _, x := range fwd {
-			if i == x {
-				return true
-			}
-		}
-		return false
+		cc := callCommon(i)
+		return cc != nil && cc.IsInvoke() && cc.Method.Name() == mn && isInner(cc.Value)
 	})
 	return !open
 }
